@@ -68,6 +68,8 @@ func (o op) coq() string {
 		return fmt.Sprintf("OSyncEnd %d %s %s", o.M, coqfmt.Z(o.Now), outs[o.Out])
 	case "Upd":
 		return fmt.Sprintf("OUpd %d %s %s", o.M, coqfmt.Z(o.Now), outs[o.Out])
+	case "UpdRdFail":
+		return fmt.Sprintf("OUpdRdFail %d %s", o.M, coqfmt.Z(o.Now))
 	case "UpdBegin":
 		return fmt.Sprintf("OUpdBegin %d %s", o.M, coqfmt.Z(o.Now))
 	case "UpdEnd":
@@ -117,6 +119,7 @@ type mem struct {
 	ctl     *etcdx.CtlKV
 	am      *tso.AllocatorManager
 	alloc   tso.Allocator
+	keep    *etcdx.KeepCtl // reads of this member's etcd client can be made to fail (nil when the world brings its own client)
 	syncP   *pend
 	updP    *pend
 	setP    *pend
@@ -133,7 +136,12 @@ type world struct {
 }
 
 func (w *world) newMember(i int) *mem {
-	nc := w.e.NewClient
+	var keep *etcdx.KeepCtl
+	nc := func() (*clientv3.Client, *etcdx.CtlKV, error) {
+		cli, ctl, k, err := w.e.NewClientKeep()
+		keep = k
+		return cli, ctl, err
+	}
 	if w.newClient != nil {
 		nc = w.newClient
 	}
@@ -154,7 +162,7 @@ func (w *world) newMember(i int) *mem {
 	if err != nil {
 		panic(err)
 	}
-	x := &mem{m: m, ctl: ctl, am: am, alloc: a}
+	x := &mem{m: m, ctl: ctl, am: am, alloc: a, keep: keep}
 	ctl.OnCommit = func(thenOps []clientv3.Op) {
 		for _, o := range thenOps {
 			if o.IsPut() && strings.HasSuffix(string(o.KeyBytes()), "/timestamp") {
@@ -311,15 +319,21 @@ func (w *world) exec1(o *op) string {
 			o.Now = *wpost - int64(saveInterval)
 		}
 		return errObs(err)
-	case "Upd":
+	case "Upd", "UpdRdFail":
 		if !x.m.GetLeadership().Check() {
 			return "BSkip"
 		}
 		x.lastPut = 0
 		w.setMode(x, o.Out)
+		if o.K == "UpdRdFail" && x.keep != nil {
+			x.keep.FailRanges(3) // reads of the stored window fail, writes work
+		}
 		pre, wpre, t0 := x.state(), w.window(), time.Now().UnixNano()
 		err := x.alloc.UpdateTSO()
 		t1 := time.Now().UnixNano()
+		if x.keep != nil {
+			x.keep.FailRanges(0)
+		}
 		x.ctl.SetNext(etcdx.Pass)
 		post, wpost := x.state(), w.window()
 		o.Now = w.nowOfUpdate(x, pre, post, wpre, wpost, t0, t1)
@@ -602,7 +616,15 @@ func (g *gen) step() {
 		if x.setP == nil && x.updP == nil && x.syncP == nil {
 			ts, rel := g.pickTS(m)
 			if r.Pct(70) || x.updP != nil && false {
-				g.do(op{K: "Set", M: m, TS: ts, Rel: rel, Out: r.Pick(80, 10, 10)})
+				out := r.Pick(80, 10, 10)
+				g.do(op{K: "Set", M: m, TS: ts, Rel: rel, Out: out})
+				if out != 0 && x.keep != nil && r.Pct(60) {
+					// the outcome of that save is uncertain: the next update has to read the window back - and cannot
+					time.Sleep(saveInterval)
+					if b := g.do(op{K: "UpdRdFail", M: m}); b == "BErr" {
+						g.afterUpdError(m)
+					}
+				}
 			} else {
 				b := g.do(op{K: "SetBegin", M: m, TS: ts, Rel: rel})
 				if b == "BStarted" {
@@ -791,6 +813,14 @@ func scenarios() [][]op {
 			{K: "ResetGroup", M: 0}, {K: "UpdFinish", M: 0}, {K: "State", M: 0},
 			{K: "Elect", M: 1}, {K: "Sync", M: 1}, {K: "Set", M: 1, TS: far(), Rel: "one-hour-ahead"}, {K: "Gen", M: 1, Count: 1}, {K: "ResetGroup", M: 1},
 			{K: "Elect", M: 0}, {K: "State", M: 0}, {K: "Gen", M: 0, Count: 1}, {K: "Read"}},
+		// a reset one hour ahead whose answer is lost although etcd applied it, then an update that has to read the window
+		// back while reads fail: it gives up (the group is reset); the successor starts above the window that was written
+		{{K: "Elect", M: 0}, {K: "Sync", M: 0}, {K: "Gen", M: 0, Count: 1}, {K: "Set", M: 0, TS: far(), Rel: "one-hour-ahead", Out: 2}, {K: "State", M: 0}, {K: "Read"},
+			{K: "Sleep", Us: 6000}, {K: "UpdRdFail", M: 0}, {K: "State", M: 0}, {K: "Read"}, {K: "ResetGroup", M: 0},
+			{K: "Elect", M: 1}, {K: "Sync", M: 1}, {K: "Gen", M: 1, Count: 1}, {K: "State", M: 1}, {K: "Read"}},
+		// ... and the same with the answer of the reset lost before etcd applied it (nothing to read back that differs)
+		{{K: "Elect", M: 0}, {K: "Sync", M: 0}, {K: "Gen", M: 0, Count: 1}, {K: "Set", M: 0, TS: far(), Rel: "one-hour-ahead", Out: 1}, {K: "State", M: 0}, {K: "Read"},
+			{K: "Sleep", Us: 6000}, {K: "UpdRdFail", M: 0}, {K: "State", M: 0}, {K: "Read"}, {K: "Sleep", Us: 6000}, {K: "Upd", M: 0}, {K: "State", M: 0}, {K: "Read"}},
 		// a window save that takes longer than the save interval (slow but successful): the memory moves to the time the
 		// save was decided for, not to a later reading of the clock - what is granted next lies below the window written
 		{{K: "Elect", M: 0}, {K: "Sync", M: 0}, {K: "Gen", M: 0, Count: 1}, {K: "Sleep", Us: 6000}, {K: "UpdBegin", M: 0}, {K: "Sleep", Us: 16000},
